@@ -1,7 +1,6 @@
 package main
 
 import (
-	"encoding/json"
 	"fmt"
 	"strings"
 
@@ -13,9 +12,9 @@ import (
 func init() {
 	register(&Prop{
 		ID: "C01", Level: "exploration", Quick: 80000, Thorough: 5000000,
-		Rule: "trial = generated SAM (reference 4..60, 1..8 queries or 60..150 one-record queries, 1..3 primary/supplementary records per query overlapping or not and agreeing or conflicting, CIGARs over M I D N S H P = X incl. leading/trailing D, unmapped/secondary records interleaved) x --pad x --start/--end x --wrap, 3 seeded schedules with --threads in {1,2,3,4,8} and chunked SAM reads; oracle = executable reference model of the projection; non-trivial = at least one multi-record query or at least one D/N/I operator, and at least 2 queries; distinct = distinct (input, options)",
-		Gen:   genC01,
-		Check: checkC01,
+		Rule:     "trial = generated SAM (reference 4..60, 1..8 queries or 60..150 one-record queries, 1..3 primary/supplementary records per query overlapping or not and agreeing or conflicting, CIGARs over M I D N S H P = X incl. leading/trailing D, unmapped/secondary records interleaved) x --pad x --start/--end x --wrap, 3 seeded schedules with --threads in {1,2,3,4,8} and chunked SAM reads; oracle = executable reference model of the projection; non-trivial = at least one multi-record query or at least one D/N/I operator, and at least 2 queries; distinct = distinct (input, options)",
+		Gen:      genC01,
+		Check:    checkC01,
 		Required: []string{"out_of_order_arrival", "multi_record_query", "conflicting_overlap", "junk_record_inside_block", "deletion_facing_base_in_overlap"},
 	})
 }
@@ -45,17 +44,13 @@ func genC01(r *Rand, tier string, ord int) *Trial {
 	if r.P(0.4) {
 		o.Wrap = r.PickInt(1, 2, 3, 7, 60, sp.L)
 	}
-	b, _ := json.Marshal(sc)
-	t := &Trial{Kind: kind, Case: Case{Cmd: "toma", Files: map[string]string{"sam": sc.Text()}, Opts: o}, Params: map[string]string{"samcase": string(b)}}
+	t := &Trial{Kind: kind, Case: Case{Cmd: "toma", Files: map[string]string{"sam": sc.Text()}, Opts: o}, Params: map[string]string{}}
 	t.Runs = genRunCfgs(r, 3)
 	return t
 }
 
 func checkC01(t *Trial, ctx *Ctx) *Failure {
-	var sc SamCase
-	if err := json.Unmarshal([]byte(t.Params["samcase"]), &sc); err != nil {
-		panic(err)
-	}
+	sc := *parseSamText(t.Case.Files["sam"])
 	want, ok := tomaModel(&sc, t.Case.Opts)
 	if !ok {
 		ctx.Discard("case outside the domain (query without aligned base or CIGAR past the reference end)")
